@@ -28,7 +28,7 @@ def _cps(s: str) -> List[int]:
 
 def project_token(tok: Any) -> Dict[str, Any]:
     k, v = tok.kind, tok.value
-    out: Dict[str, Any] = {"k": k, "v": _cps(v), "h": 0, "bad": False}
+    out: Dict[str, Any] = {"k": k, "v": _cps(v), "raw": _cps(v), "h": 0, "bad": False}
     if k in ("DOUBLE_QUOTE_STRING", "SINGLE_QUOTE_STRING"):
         raw = v.replace('"', '\\"').replace("\\'", "'") if k == "SINGLE_QUOTE_STRING" else v
         try:
@@ -86,7 +86,7 @@ def tokens_of(env: Any, query: str) -> List[Dict[str, Any]]:
         except StopIteration:
             break
         except JSONPathSyntaxError:
-            out.append({"k": "ILLEGAL", "v": [], "h": 0, "bad": False})
+            out.append({"k": "ILLEGAL", "v": [], "raw": [], "h": 0, "bad": False})
             break
         out.append(project_token(t))
         if t.kind == "RE_FLAGS" and len(out) >= 2 and out[-2]["k"] == "RE_PATTERN":
@@ -190,14 +190,16 @@ def error_class(e: BaseException) -> str:
 def record(env: Any, query: str) -> Optional[Dict[str, Any]]:
     """One trace record for Trace_Parser, or None when the text is outside what the specification's integers can carry."""
     try:
+        if len(query) > 400:        # the specification's scanners recurse once per character
+            raise Unrepresentable("long text")
         toks = tokens_of(env, query)
         try:
             p = env.compile(query)
         except RecursionError:
             return None
         except BaseException as e:  # noqa: BLE001
-            return {"toks": toks, "ok": False, "err": error_class(e), "tree": []}
-        return {"toks": toks, "ok": True, "err": "none", "tree": project_query(p)}
+            return {"text": _cps(query), "toks": toks, "ok": False, "err": error_class(e), "tree": []}
+        return {"text": _cps(query), "toks": toks, "ok": True, "err": "none", "tree": project_query(p)}
     except Unrepresentable:
         return None
 
